@@ -461,8 +461,9 @@ func (f *frame) execInstr(b *ssa.BasicBlock, instr ssa.Instruction, st *State) {
 	case *ssa.MapUpdate:
 		m := f.val(in.Map)
 		c.oblige(st, f.path, "safety:nilmap", fmt.Sprintf("(not (= %s nil))", m.T), "assignment to entry in nil map", in.Pos())
-		dom, val, _, _ := g.TE.MapHeaps(in.Map.Type())
+		dom, val, mks, _ := g.TE.MapHeaps(in.Map.Type())
 		k, v := f.val(in.Key).T, f.val(in.Value).T
+		c.cardStep(st, mks, fmt.Sprintf("(select %s %s)", st.Heap(dom), m.T), k, true)
 		f.storeHeap(st, dom, m.T, fmt.Sprintf("(store (select %s %s) %s true)", st.Heap(dom), m.T, k))
 		f.storeHeap(st, val, m.T, fmt.Sprintf("(store (select %s %s) %s %s)", st.Heap(val), m.T, k, v))
 	case *ssa.Lookup:
